@@ -108,7 +108,8 @@ Print Assumptions C12_fp_model_matches_C.
    |(q - x[c]) * (y[c+1] - y[c]) / (x[c+1] - x[c])| <= 2^51, |y[c]| <= 2^62.  Then both the exact
    model and the binary64 evaluation return a value (no fault) and the two differ by at most one.
    `rate` (the sample rate as a double) is not used with two or more entries.
-   Hence every statement of Properties_C12_tmap.v that tolerates +-1 holds for the binary64 C. ---- *)
+   The theorems below transfer each statement of Properties_C12_tmap.v to the binary64 C:
+   anchors exact, monotone, between the anchors, within one tick, round trip within one sample. ---- *)
 Theorem C12_fp_tmap_within_one : forall (rate : b64) (t : tmap) (q : Z), (2 <= length (tm_entries t))%nat ->
   ((forall c, search (ids t) q = TmOk c ->
       Z.abs (q - nth c (ids t) 0) <= 2 ^ 53 /\
@@ -224,6 +225,30 @@ Theorem C12_fp_tmap_monotone_inside_time_to_id : forall (rate : b64) (t : tmap) 
 Proof. exact fp_tmap_monotone_inside_rev. Qed.
 Print Assumptions C12_fp_tmap_monotone_inside_time_to_id.
 
+(* "converting that time back returns the original sample id to within one sample", entirely in
+   binary64 (both conversions as the C computes them), for queries between the first and the last
+   anchor, when every segment has at least one tick per sample (the property's rate bound) *)
+Theorem C12_fp_tmap_inverse_within_one_sample : forall (rate : b64) (t : tmap) (q tm q' : Z),
+  (forall i k, (i < k < length (ids t))%nat -> nth i (ids t) 0 < nth k (ids t) 0) ->
+  (forall i k, (i < k < length (times t))%nat -> nth i (times t) 0 < nth k (times t) 0) ->
+  (2 <= length (tm_entries t))%nat ->
+  (forall j, (j + 1 < length (ids t))%nat ->
+     nth (S j) (ids t) 0 - nth j (ids t) 0 <= 2 ^ 53 /\
+     0 <= nth (S j) (times t) 0 - nth j (times t) 0 <= 2 ^ 51 /\
+     Z.abs (nth j (times t) 0) <= 2 ^ 62) ->
+  (forall j, (j + 1 < length (times t))%nat ->
+     nth (S j) (times t) 0 - nth j (times t) 0 <= 2 ^ 53 /\
+     0 <= nth (S j) (ids t) 0 - nth j (ids t) 0 <= 2 ^ 51 /\
+     Z.abs (nth j (ids t) 0) <= 2 ^ 62) ->
+  (forall i, (i + 1 < length (tm_entries t))%nat ->
+     nth (S i) (ids t) 0 - nth i (ids t) 0 <= nth (S i) (times t) 0 - nth i (times t) 0) ->
+  nth 0 (ids t) 0 <= q <= nth (length (tm_entries t) - 1) (ids t) 0 ->
+  fp_tmap_sample_id_to_timestamp rate t q = QVal tm ->
+  fp_tmap_timestamp_to_sample_id rate t tm = QVal q' ->
+  -1 <= q' - q <= 1.
+Proof. exact fp_tmap_inverse_inside. Qed.
+Print Assumptions C12_fp_tmap_inverse_within_one_sample.
+
 (* ---- the guards hold for realistic numbers: 1 MHz sample rate, one day of samples (8.64e10 < 2^37),
    UTC ticks of 2^-30 s (jls/time.h), anchors at 0 h, 12 h, 24 h with a drifting clock, UTC near 2^58.
    One day is 86400 * 2^30 < 2^47 ticks: four binary orders of magnitude inside the 2^51 guard, which
@@ -246,6 +271,14 @@ Example C12_fp_example_guards :
 Proof. exact fp_ex_map_ok. Qed.
 Print Assumptions C12_fp_example_guards.
 
+Example C12_fp_example_slope :
+  let t := tmap_add_all (tmap_alloc (1000000 # 1))
+             [(0, 2 ^ 58); (43200000000, 2 ^ 58 + 43200 * 2 ^ 30 + 617); (86400000000, 2 ^ 58 + 86400 * 2 ^ 30 + 1234)] in
+  forall i, (i + 1 < length (tm_entries t))%nat ->
+    nth (S i) (ids t) 0 - nth i (ids t) 0 <= nth (S i) (times t) 0 - nth i (times t) 0.
+Proof. exact fp_ex_map_slope. Qed.
+Print Assumptions C12_fp_example_slope.
+
 (* values of the binary64 model on that map (Flocq's operations evaluated by vm_compute), next to the
    exact model; an extrapolation one hour past the last anchor satisfies the selected-segment guard *)
 Example C12_fp_example_values :
@@ -265,6 +298,57 @@ Example C12_fp_example_values :
    Z.abs (nth 1 (times t) 0) <= 2 ^ 62).
 Proof. exact fp_ex_values. Qed.
 Print Assumptions C12_fp_example_values.
+
+(* ---- a single entry: extrapolation with the sample rate, in binary64.
+     id -> time:  utc[0] + (int64_t) ((double)(q - s0) / sample_rate * 2^30)   (one rounding: the scaling by 2^30 is exact)
+     time -> id:  sample_id[0] + (int64_t) ((double)(q - u0) * (1.0 / 2^30) * sample_rate)   (one rounding)
+   `rate` is the C's double sample_rate; its value is the model's rational tm_rate t.
+   Guards: |q - s0| <= 2^53 (exact conversion), the exact offset at most 2^52 in magnitude, the rate
+   between 2^-900 and 2^1000 (no underflow / overflow of the quotient), the anchor within 2^62.
+   Then: no fault, at most one unit from the exact model (truncation toward zero is discontinuous at
+   every integer: a difference of one happens when the exact offset is within 2^-53 relative of an
+   integer), and less than 1 + 2^-53 |offset| from the exact rational value (exact model: less than 1). ---- *)
+Theorem C12_fp_tmap_single_within_one : forall (rate : b64) (t : tmap) (s0 u0 q : Z),
+  tm_entries t = [(s0, u0)] ->
+  is_finite rate = true -> B2R rate = Q2R (tm_rate t) ->
+  (bpow radix2 (-900) <= Q2R (tm_rate t) <= bpow radix2 1000)%R ->
+  (Z.abs (q - s0) <= 2 ^ 53 -> Z.abs u0 <= 2 ^ 62 ->
+   (Qabs ((inject_Z (q - s0) / tm_rate t) * inject_Z (2 ^ 30)) <= inject_Z (2 ^ 52))%Q ->
+   exists v v' : Z,
+     tmap_sample_id_to_timestamp t q = QVal v /\ fp_tmap_sample_id_to_timestamp rate t q = QVal v' /\
+     -1 <= v' - v <= 1 /\
+     (Qabs (inject_Z v' - (inject_Z u0 + (inject_Z (q - s0) / tm_rate t) * inject_Z (2 ^ 30))) <
+        1 + Qabs ((inject_Z (q - s0) / tm_rate t) * inject_Z (2 ^ 30)) * (1 # 2 ^ 53))%Q) /\
+  (Z.abs (q - u0) <= 2 ^ 53 -> Z.abs s0 <= 2 ^ 62 ->
+   (Qabs ((inject_Z (q - u0) * (1 / inject_Z (2 ^ 30))) * tm_rate t) <= inject_Z (2 ^ 52))%Q ->
+   exists v v' : Z,
+     tmap_timestamp_to_sample_id t q = QVal v /\ fp_tmap_timestamp_to_sample_id rate t q = QVal v' /\
+     -1 <= v' - v <= 1 /\
+     (Qabs (inject_Z v' - (inject_Z s0 + (inject_Z (q - u0) * (1 / inject_Z (2 ^ 30))) * tm_rate t)) <
+        1 + Qabs ((inject_Z (q - u0) * (1 / inject_Z (2 ^ 30))) * tm_rate t) * (1 # 2 ^ 53))%Q).
+Proof. exact fp_tmap_single_within_one. Qed.
+Print Assumptions C12_fp_tmap_single_within_one.
+
+(* a rate given as num * 2^-sh (the notation of the correspondence scripts) is such a `rate` *)
+Theorem C12_fp_rate_of_scaled : forall (num : Z) (sh : N), Z.abs num <= 2 ^ 53 -> Z.of_N sh <= 1074 ->
+  is_finite (b64_of_scaled num sh) = true /\ B2R (b64_of_scaled num sh) = Q2R (tmap_rate num sh).
+Proof. exact b64_of_scaled_exact. Qed.
+Print Assumptions C12_fp_rate_of_scaled.
+
+(* the single-entry guards hold for 1 MHz and a query one day after the only anchor *)
+Example C12_fp_example_single :
+  let t := tmap_add_all (tmap_alloc (1000000 # 1)) [(0, 2 ^ 58)] in
+  let rate := b64_of_Z 1000000 in
+  tm_entries t = [(0, 2 ^ 58)] /\
+  is_finite rate = true /\ B2R rate = Q2R (tm_rate t) /\
+  (bpow radix2 (-900) <= Q2R (tm_rate t) <= bpow radix2 1000)%R /\
+  Z.abs (86400000000 - 0) <= 2 ^ 53 /\ Z.abs (2 ^ 58) <= 2 ^ 62 /\
+  (Qabs ((inject_Z (86400000000 - 0) / tm_rate t) * inject_Z (2 ^ 30)) <= inject_Z (2 ^ 52))%Q /\
+  fp_tmap_sample_id_to_timestamp rate t 86400000000 = QVal (2 ^ 58 + 86400 * 2 ^ 30) /\
+  fp_tmap_sample_id_to_timestamp rate t 12345678901 = tmap_sample_id_to_timestamp t 12345678901 /\
+  fp_tmap_timestamp_to_sample_id rate t (2 ^ 58 + 86400 * 2 ^ 30) = QVal 86400000000.
+Proof. exact fp_ex_single_ok. Qed.
+Print Assumptions C12_fp_example_single.
 
 (* ====================================================================================== *)
 (* C20 - jls_statistics_add / the two-pass mean in binary64                               *)
@@ -342,6 +426,87 @@ Example C20_fp_example_hyps :
   (Z.of_nat (length xs) <= 2 ^ 52)%Z /\ (Z.of_nat (length xs) + 1 <= 2 ^ 26)%Z.
 Proof. exact fp_stats_example_hyps. Qed.
 Print Assumptions C20_fp_example_hyps.
+
+(* Forward error of s = the sum of squared deviations accumulated by jls_statistics_add
+   (s += (x - m_old) * (x - m_new): two subtractions, a product, an addition per call):
+     |s_fp - s_exact| <= (21 n + 14) * n * 2^-53 * M^2        (<= 35 n^2 2^-53 M^2)
+   for n <= 2^32 samples (doubles) of magnitude at most M, M >= 2^-511 (M^2 >= 2^-1022 absorbs the
+   2^-1075 absolute error of an underflowing product).  The bound is quadratic in n because the
+   worst-case bound of the running mean grows linearly with n and enters every later term; it is an
+   absolute bound in units of M^2, not relative to s (when s << n M^2 - large offset, small spread -
+   binary64 does lose the relative accuracy of s: this is the cancellation of DESIGN section 14, C02c).
+   ssq_of is the exact value of StatsQ.v, the s field of C20_add_fold. *)
+Theorem C20_fp_add_s_error : forall (M : R) (xs : list Q), bpow radix2 (-511) <= M -> xs <> [] ->
+  Forall (fun x => generic_format radix2 (FLT_exp (-1074) 53) (Q2R x) /\ Rabs (Q2R x) <= M) xs ->
+  (Z.of_nat (length xs) <= 2 ^ 32)%Z ->
+  Rabs (f_s (fp_stats_add_list (map Q2R xs)) - Q2R (ssq_of xs)) <=
+    (21 * INR (length xs) + 14) * INR (length xs) * u64 * (M * M).
+Proof. exact fp_s_error_Q. Qed.
+Print Assumptions C20_fp_add_s_error.
+
+(* the general form: n <= 2^52, any M >= 0, explicit constants
+     eps   = n * cstep M                        (bound of the mean errors, C20_fp_add_mean_error_sharp)
+     delta = eps (1 + u) + 2 u M                (error of x - m_old and of x - m_new)
+     pi    = (1 + u) delta (4 M + delta) + 4 u M^2 + 2^-1075      (error of the rounded product)
+     |s_fp - s_exact| <= n (1 + 2 n u) ((1 + u) pi + 4 u n M^2) *)
+Theorem C20_fp_add_s_error_general : forall (M : R) (xs : list R), 0 <= M ->
+  Forall (fun x => generic_format radix2 (FLT_exp (-1074) 53) x /\ Rabs x <= M) xs ->
+  (Z.of_nat (length xs) <= 2 ^ 52)%Z ->
+  let n := INR (length xs) in
+  let eps := n * ((1 + u64) * ((2 * u64 + u64 * u64) * M + bpow radix2 (-1075)) + u64 * M) in
+  let delta := eps * (1 + u64) + 2 * u64 * M in
+  let pi := (1 + u64) * (delta * (4 * M + delta)) + 4 * u64 * (M * M) + bpow radix2 (-1075) in
+  Rabs (f_s (fp_stats_add_list xs) - rsum (map (fun x => (x - rsum xs / n) * (x - rsum xs / n)) xs)) <=
+    n * ((1 + 2 * n * u64) * ((1 + u64) * pi + 4 * u64 * n * (M * M))).
+Proof. exact fp_s_error. Qed.
+Print Assumptions C20_fp_add_s_error_general.
+
+(* ---- the same two bounds for the IEEE-754 computation itself: jls_statistics_add written with
+   Flocq's binary64 operations (Bminus, Bdiv, Bplus, Bmult of BinarySingleNaN, round to nearest
+   even, no fused multiply-add), started from jls_statistics_reset.
+   Guards: n <= 2^32 finite doubles of magnitude at most M with 2^-511 <= M <= 2^480.
+   Then no operation overflows (every result is finite), the count is n, and
+     |mean - exact mean| <= 5 n 2^-53 M,    |s - exact s| <= (21 n + 14) n 2^-53 M^2. ---- *)
+Theorem C20_fp_b64_add_error : forall (M : R) (xs : list b64),
+  bpow radix2 (-511) <= M <= bpow radix2 480 -> xs <> [] ->
+  Forall (fun x => is_finite x = true /\ Rabs (B2R x) <= M) xs -> (Z.of_nat (length xs) <= 2 ^ 32)%Z ->
+  let st := b64_stats_add_list xs in
+  is_finite (b_mean st) = true /\ is_finite (b_s st) = true /\ b_k st = Z.of_nat (length xs) /\
+  Rabs (B2R (b_mean st) - rsum (map B2R xs) / INR (length (map B2R xs))) <= 5 * INR (length xs) * u64 * M /\
+  Rabs (B2R (b_s st) - rsum (map (fun x => (x - rsum (map B2R xs) / INR (length (map B2R xs))) * (x - rsum (map B2R xs) / INR (length (map B2R xs)))) (map B2R xs))) <=
+    (21 * INR (length xs) + 14) * INR (length xs) * u64 * (M * M).
+Proof. exact b64_stats_add_error. Qed.
+Print Assumptions C20_fp_b64_add_error.
+
+(* under those guards the IEEE computation is the model on the reals used above (RN after every
+   operation): same mean, same s, same count *)
+Theorem C20_fp_b64_refines : forall (M : R) (xs : list b64),
+  bpow radix2 (-511) <= M <= bpow radix2 480 ->
+  Forall (fun x => is_finite x = true /\ Rabs (B2R x) <= M) xs -> (Z.of_nat (length xs) <= 2 ^ 32)%Z ->
+  let st := b64_stats_add_list xs in
+  is_finite (b_mean st) = true /\ is_finite (b_s st) = true /\ b_k st = Z.of_nat (length xs) /\
+  fp_stats_add_list (map B2R xs) = mkFstats (length xs) (B2R (b_mean st)) (B2R (b_s st)).
+Proof. exact b64_stats_add_list_refines. Qed.
+Print Assumptions C20_fp_b64_refines.
+
+(* the binary64 model returns bit for bit what the real C printed for mean and s
+   (echo '1 5 3p-1 -5p-2 7p0 7p0 1p-10 R 0 A 0 0 5 P 0' | build/plain/jlsrun stats
+    -> mean=4006cd3333333333 s=404e98e33999999a; second sequence: large offset, small spread);
+   doubles written as (mantissa, exponent) *)
+Example C20_fp_model_matches_C :
+  (let st := b64_stats_add_list (map b64_mk [(3, -1); (-5, -2); (7, 0); (7, 0); (1, -10)]%Z) in
+   Beqb (b_mean st) (b64_mk (6418069273654067, -51)%Z) && Beqb (b_s st) (b64_mk (8612350992685466, -47)%Z)) = true /\
+  (let st := b64_stats_add_list (map b64_mk [(4503599627370497, -12); (4503599627370499, -12); (4503599627370498, -12); (-1, -20); (1, 30); (3, 0)]%Z) in
+   Beqb (b_mean st) (b64_mk (4505065642878295, -13)%Z) && Beqb (b_s st) (b64_mk (6751004973671767, 28)%Z)) = true.
+Proof. exact fp_stats_matches_C. Qed.
+Print Assumptions C20_fp_model_matches_C.
+
+Example C20_fp_b64_example_hyps :
+  let xs := map b64_mk [(3, -1); (-5, -2); (7, 0); (7, 0); (1, -10)]%Z in
+  bpow radix2 (-511) <= 7 <= bpow radix2 480 /\ xs <> [] /\
+  Forall (fun x => is_finite x = true /\ Rabs (B2R x) <= 7) xs /\ (Z.of_nat (length xs) <= 2 ^ 32)%Z.
+Proof. exact b64_stats_example_hyps. Qed.
+Print Assumptions C20_fp_b64_example_hyps.
 
 (* ====================================================================================== *)
 (* C02 - "up to the precision of the stored summaries"                                     *)
